@@ -10,6 +10,7 @@ import (
 	"os"
 	"path/filepath"
 	"runtime"
+	"runtime/pprof"
 	"sort"
 	"strings"
 	"time"
@@ -127,7 +128,7 @@ func watchdog(dir string, worker int, limit time.Duration) {
 	for {
 		time.Sleep(2 * time.Second)
 		s, p := verifsim.Steps(), progressLoad()
-		if s != lastSteps || p != lastProg {
+		if s != lastSteps || p != lastProg || externalLoad() > 0 {
 			lastSteps, lastProg = s, p
 			lastChange = time.Now()
 			continue
@@ -141,6 +142,17 @@ func watchdog(dir string, worker int, limit time.Duration) {
 		}
 	}
 }
+
+var external int64 // >0 while the worker waits for a subprocess of its own
+
+//go:norace
+func externalBegin() { external++; progress++ }
+
+//go:norace
+func externalEnd() { external--; progress++ }
+
+//go:norace
+func externalLoad() int64 { return external }
 
 //go:norace
 func progressLoad() int64 { return progress }
@@ -180,11 +192,18 @@ func cmdBatch(args []string) int {
 	out := fs.String("out", ".", "output directory")
 	nsites := fs.Int("sites", 4096, "number of yield sites")
 	free := fs.Bool("free", false, "uncontrolled mode for every run")
-	wdog := fs.Float64("watchdog", 8, "seconds without progress before giving up")
+	wdog := fs.Float64("watchdog", 15, "seconds without progress before giving up")
 	maxViol := fs.Int("maxviol", 12, "violating runs to record")
 	tag := fs.String("tag", "", "suffix of the output file names (default: worker index)")
 	auditEvery := fs.Int("audit", 20, "repeat the reference pass of every n-th run in a fresh process (0 = never)")
+	cpuprof := fs.String("cpuprofile", "", "write a CPU profile (debugging)")
 	_ = fs.Parse(args)
+	if *cpuprof != "" {
+		if f, err := os.Create(*cpuprof); err == nil {
+			_ = pprof.StartCPUProfile(f)
+			defer pprof.StopCPUProfile()
+		}
+	}
 
 	if *tag == "" {
 		*tag = fmt.Sprint(*worker)
